@@ -1437,6 +1437,10 @@ class Engine:
         return env
 
     def ev_default(self, st, dnode, module):
+        if isinstance(dnode, (ast.List, ast.Dict, ast.Set, ast.ListComp, ast.DictComp, ast.SetComp)) or \
+                (isinstance(dnode, ast.Call) and isinstance(dnode.func, ast.Name) and dnode.func.id in ("list", "dict", "set", "defaultdict")):
+            # evaluated once when the function is defined: one object shared by all calls (state that outlives the call)
+            raise Unsupported("mutable default argument (one object shared between calls)", dnode)
         s2 = st.fork()
         s2.env = {}
         if module:
